@@ -52,6 +52,9 @@ func vfRoutingMicroScripts(property string) []vfMicroScript {
 			// the old target stream breaks and the shard reconnects while the old sender is still shutting down
 			{Name: "target-breaks-and-reconnects-at-once", Scenario: base("micro-c08-B", 0), Setup: []string{"openT:1", "openT:2", "openS:1", "wm:1", "@baseline"},
 				Steps: []string{"breakT:1", "openT:1", "emit:1"}},
+			// a flapping reconnect: the old stream breaks, the shard reconnects and that stream breaks again at once
+			{Name: "target-flaps", Scenario: base("micro-c08-X", 0), Setup: []string{"openT:1", "openT:2", "openS:1", "wm:1"},
+				Steps: []string{"breakT:1", "openT:1", "breakT:1"}},
 			// a target acknowledges while the source shard's receiver is between incarnations, then the target stream ends:
 			// the sender's ack worker must not outlive its stream
 			{Name: "ack-retried-while-source-is-away-then-target-stream-ends", Scenario: base("micro-c08-A", 0), Setup: []string{"openT:1", "openT:2", "openS:1", "emit:1"},
